@@ -36,6 +36,12 @@ fn words(rng: &mut Rng, lo: usize, hi: usize) -> String {
 /// One document. `bodies` is a small pool of body texts so that many documents share
 /// the exact same text (equal BM25 scores inside a segment).
 pub fn gen_doc(rng: &mut Rng, id: &str, bodies: &[String], rough: bool) -> Value {
+  gen_doc_with(rng, id, bodies, rough, true)
+}
+
+/// `big_ints = false` keeps every numeric value small and exactly representable, so that sums
+/// over them do not depend on the order of addition (used where aggregations are compared).
+pub fn gen_doc_with(rng: &mut Rng, id: &str, bodies: &[String], rough: bool, big_ints: bool) -> Value {
   let mut m = Map::new();
   m.insert("_id".into(), json!(id));
   m.insert("uid".into(), json!(id));
@@ -73,7 +79,8 @@ pub fn gen_doc(rng: &mut Rng, id: &str, bodies: &[String], rough: bool) -> Value
     }
     _ => {
       let big = [9_007_199_254_740_993i64, -9_007_199_254_740_993, 4_000_000_000, 7];
-      m.insert("n".into(), json!(rng.pick(&big)));
+      let v = *rng.pick(&big);
+      m.insert("n".into(), json!(if big_ints { v } else { 7 }));
     }
   }
   match rng.below(4) {
@@ -145,6 +152,10 @@ impl Corpus {
 }
 
 pub fn gen_corpus(rng: &mut Rng, n_docs: usize, max_commits: usize) -> Corpus {
+  gen_corpus_with(rng, n_docs, max_commits, true)
+}
+
+pub fn gen_corpus_with(rng: &mut Rng, n_docs: usize, max_commits: usize, big_ints: bool) -> Corpus {
   let n_bodies = rng.urange(2, 7);
   let bodies: Vec<String> = (0..n_bodies).map(|_| words(rng, 1, 5)).collect();
   let rough = rng.chance(0.35);
@@ -159,7 +170,7 @@ pub fn gen_corpus(rng: &mut Rng, n_docs: usize, max_commits: usize) -> Corpus {
         next += 1;
         format!("d{}", next - 1)
       };
-      ops.push(Op::Add(gen_doc(rng, &id, &bodies, rough)));
+      ops.push(Op::Add(gen_doc_with(rng, &id, &bodies, rough, big_ints)));
     }
     if ci > 0 && next > 0 && rng.chance(0.3) {
       for _ in 0..rng.urange(1, 3) {
